@@ -242,7 +242,7 @@ func (r *Runner) runHarness(rel string, fn *ssa.Function, workers int) *HarnessR
 		if err != nil {
 			return nil, err
 		}
-		x := &ssaexec.Exec{Prog: r.L.Prog, C: c, S: s}
+		x := &ssaexec.Exec{Prog: r.L.Prog, C: c, S: s, ModPath: ModPath}
 		x.Opt = ssaexec.Options{MaxUnwind: o.MaxUnwind, MaxSteps: o.MaxSteps, MaxSplit: o.MaxSplit, InitPkgs: initPkgs, MapOrders: o.MapOrders, Workers: o.Workers, Tier: tier}
 		x.Opt.IfConv = o.IfConv
 		x.Opt.Preempt = o.Preempt[tier]
@@ -326,7 +326,11 @@ func (r *Runner) Run() int {
 	for i, j := range jobs {
 		results[i] = r.runHarness(j.rel, j.fn, cores)
 		hr := results[i]
-		fmt.Fprintf(os.Stderr, "  %-44s paths=%-6d ends=%v findings=%d q=%d solver=%.1fs wall=%.1fs ifconv=%d\n", hr.Name, hr.Report.Paths, hr.Report.Ends, len(hr.Report.Findings), hr.Stats.Solver.Queries, hr.Stats.Solver.Seconds, hr.Wall, hr.Stats.IfConv)
+		und := ""
+		if hr.Stats.Undecided > 0 || hr.Stats.Poisoned > 0 {
+			und = fmt.Sprintf(" overapprox-conds=%d undecided-assertions=%d", hr.Stats.Poisoned, hr.Stats.Undecided)
+		}
+		fmt.Fprintf(os.Stderr, "  %-44s paths=%-6d ends=%v findings=%d q=%d solver=%.1fs wall=%.1fs ifconv=%d%s\n", hr.Name, hr.Report.Paths, hr.Report.Ends, len(hr.Report.Findings), hr.Stats.Solver.Queries, hr.Stats.Solver.Seconds, hr.Wall, hr.Stats.IfConv, und)
 		if hr.Err != nil {
 			fmt.Fprintf(os.Stderr, "    error: %v\n", hr.Err)
 		}
@@ -661,6 +665,9 @@ func (r *Runner) writeEvidence(results []*HarnessResult, outs []FindingOut, vali
 			if i < 1 {
 				samples = append(samples, s)
 			}
+		}
+		if hr.Stats != nil && hr.Stats.Undecided > 0 {
+			notes[fmt.Sprintf("%s: %d assertion instances left undecided (candidate did not satisfy the exact semantics on an over-approximated path)", hr.Name, hr.Stats.Undecided)] = true
 		}
 		h := map[string]interface{}{"harness": hr.Name, "paths": hr.Report.Paths, "ends": hr.Report.Ends, "reached": hr.Report.Reached, "wall_s": round(hr.Wall), "float_mode": hr.Mode}
 		if hr.Stats != nil {
